@@ -565,7 +565,7 @@ def questionProbe : List (List Question) :=
    [⟨"xwww.victim.test.".toList, 1, 1⟩]]
 
 /-- `(referral, authZone, qname)` triples the compiled `progressingReferral` and
-`CompareSuffix(referral, authZone)` are evaluated on: proper, self, self in
+`CompareSuffix(referral, authZone)` / `NameInZone(referral, authZone)` are evaluated on: proper, self, self in
 another case, upward, root, sideways, string-suffix look-alike, off path,
 referral = qname, escaped dot, from the root, equal head over a different middle label. -/
 def referralProbe : List (String × String × String) :=
@@ -591,7 +591,9 @@ theorem compiled_guards_agree_with_model_on_probes :
     SdnsVerif.Gen.C07.progressing_probe =
       referralProbe.map (fun t => progressingReferral t.1.toList t.2.1.toList t.2.2.toList) ∧
     SdnsVerif.Gen.C07.compare_suffix_probe =
-      referralProbe.map (fun t => compareSuffix (labelsOf t.1.toList) (labelsOf t.2.1.toList)) := by
+      referralProbe.map (fun t => compareSuffix (labelsOf t.1.toList) (labelsOf t.2.1.toList)) ∧
+    SdnsVerif.Gen.C07.in_zone_probe =
+      referralProbe.map (fun t => nameInZone (lower t.1.toList) (lower t.2.1.toList)) := by
   decide
 
 end SdnsVerif.Props.C07
